@@ -11,11 +11,12 @@ from __future__ import annotations
 import ast
 from typing import List, Tuple
 
-from ..core import FuncInfo, call_name, kwarg, local_defs, norm, origin, parent_map, walk_local
+from ..core import FuncInfo, alpha, call_name, kwarg, local_defs, norm, origin, parent_map, walk_local
 
 
 def selections(fi: FuncInfo) -> List[Tuple[ast.AST, str, str]]:
-    """[(node, kind, tie_break)] with tie_break in {'id', 'iteration-order', 'total'}"""
+    """[(node, kind, tie_break, text)] with tie_break in {'id', 'iteration-order', 'total'}; ``text`` is the selection with
+    its source resolved and local names alpha-normalised (a stable key for the construct)"""
     out = []
     fn = fi.node
     defs = local_defs(fn)
@@ -25,7 +26,7 @@ def selections(fi: FuncInfo) -> List[Tuple[ast.AST, str, str]]:
         if isinstance(n, ast.Subscript) and isinstance(n.slice, ast.Constant) and n.slice.value in (0, -1):
             src = origin(defs, n.value)
             if isinstance(src, ast.Call) and isinstance(src.func, ast.Name) and src.func.id == "sorted":
-                out.append((n, "sorted(...)[0]", _tie(src)))
+                out.append((n, "sorted(...)[0]", _tie(src), alpha(src, fn) + f"[{n.slice.value}]"))
         if isinstance(n, ast.Call) and isinstance(n.func, ast.Name) and n.func.id in ("max", "min") and len(n.args) == 1:
             arg = n.args[0]
             # min(c) over a set of ids used *inside a key* is handled by the enclosing selection
@@ -40,10 +41,10 @@ def selections(fi: FuncInfo) -> List[Tuple[ast.AST, str, str]]:
                 continue
             if isinstance(arg, ast.GeneratorExp):
                 continue  # max over computed numbers, not a choice among candidates
-            out.append((n, f"{n.func.id}(...)", _tie(n)))
+            out.append((n, f"{n.func.id}(...)", _tie(n), alpha(n, fn)))
         if isinstance(n, ast.Call) and isinstance(n.func, ast.Name) and n.func.id == "next" and n.args \
                 and isinstance(n.args[0], ast.Call) and call_name(n.args[0]) == "iter":
-            out.append((n, "next(iter(...))", "iteration-order"))
+            out.append((n, "next(iter(...))", "iteration-order", alpha(n, fn)))
     return out
 
 
